@@ -29,6 +29,8 @@ func runC18(c *Ctx) {
 	defer c18Wake(c, "pkg/module/http2")
 	c.Rule("C18.W5", "a WINDOW_UPDATE credits the window it names: the connection window only for stream id 0", 2)
 	defer c18CreditTarget(c, "pkg/module/http2")
+	c.Rule("C18.W6", "frame sequences parse identically however they are segmented: the frame reader makes progress, consumes all-or-nothing, and feeds the shared HPACK decoder only once per header block", 5)
+	defer runC07H2(c, "", "C18.W6")
 	c.NotDecided = append(c.NotDecided, "wire compatibility of frames and HPACK with golang.org/x/net/http2 (value-level)", "behaviour under concrete WINDOW_UPDATE schedules (liveness of the wait)", "SETTINGS handling that updates maxFrameSize / initial window")
 	c.Assumptions = append(c.Assumptions, "sync.Cond.Wait releases and re-acquires the mutex it was created with")
 
